@@ -1,15 +1,8 @@
 (* Proofs/TravSlice.v — the GENERATED sliceBounds (Gen/FromGo.v, regenerated from matcher.go on every run)
    meets its specification and never yields bounds that would make the Go slicing panic. *)
-Require Import IP.Base.GoSem IP.Gen.FromGo.
+Require Import IP.Base.Bytes IP.DM.Value IP.Base.GoSem IP.Gen.FromGo IP.Trav.Selector IP.Trav.Walk IP.Trav.SelectorSpec.
 From Coq Require Import Lia ZArith.
 Open Scope Z_scope.
-
-(* Slice's documentation: [from,to), negative values are offsets from the end, to is clamped to the length,
-   from > length or from > to is a non-match *)
-Definition slice_spec (from to len : Z) : bool * Z * Z :=
-  let to' := if to <? 0 then len + to else Z.min to len in
-  let from' := if from <? 0 then Z.max 0 (len + from) else from in
-  if (from' >? to') || (from' >=? len) then (false, 0, 0) else (true, from', to').
 
 Lemma wrap64_id z : in64 z -> wrap64 z = z.
 Proof.
@@ -47,4 +40,17 @@ Proof.
     inversion H; subst; try discriminate;
     apply orb_false_iff in Ec; destruct Ec as [E1 E2];
     rewrite Z.gtb_ltb in E1; apply Z.ltb_ge in E1; rewrite Z.geb_leb in E2; apply Z.leb_gt in E2; lia.
+Qed.
+
+(* the code's Slice on a node = the specification's, for 64-bit bounds and strings shorter than 2^63 *)
+Definition slice_ok (sl : option (Z * Z)) : Prop :=
+  match sl with Some (f, t) => in64 f /\ in64 t | None => True end.
+Definition small_top (n : dm) : Prop :=
+  match n with DString s | DBytes s => len64 s < two63 | _ => True end.
+
+Lemma slice_node_spec ft n : slice_ok (Some ft) -> small_top n -> slice_node ft n = spec_slice_node ft n.
+Proof.
+  destruct ft as [f t]. intros [Hf Ht] Hn. unfold slice_node, spec_slice_node, slice_bytes, spec_slice_bytes.
+  destruct n; try reflexivity; cbn [fst snd]; cbn in Hn;
+    rewrite slice_bounds_spec by (auto; unfold len64 in *; lia); reflexivity.
 Qed.
